@@ -42,6 +42,37 @@ Fixpoint filter_mask {A} (m : list bool) (l : list A) : list A :=
   | _, _ => []
   end.
 
+(* functions.remove_duplicates (np.unique(axis=0, return_index=True) over the
+   sorted rows, then rows[indices]): one row per sorted-row key, the first
+   occurrence, in ascending lexicographic order of the keys *)
+Fixpoint insert_sortZ (x : Z) (l : list Z) : list Z :=
+  match l with [] => [x] | y :: r => if Z.leb x y then x :: l else y :: insert_sortZ x r end.
+Definition sort_row (c : list Z) : list Z := fold_right insert_sortZ [] c.
+
+Fixpoint lex_cmp (a b : list Z) : comparison :=
+  match a, b with
+  | [], [] => Eq
+  | [], _ => Lt
+  | _, [] => Gt
+  | x :: a', y :: b' => match Z.compare x y with Eq => lex_cmp a' b' | c => c end
+  end.
+
+Fixpoint firsts (seen : list (list Z)) (rows : list (list Z)) : list (list Z * list Z) :=
+  match rows with
+  | [] => []
+  | r :: t => let k := sort_row r in
+              if existsb (list_eqb k) seen then firsts seen t else (k, r) :: firsts (k :: seen) t
+  end.
+
+Fixpoint insert_lex (x : list Z * list Z) (l : list (list Z * list Z)) : list (list Z * list Z) :=
+  match l with
+  | [] => [x]
+  | y :: t => match lex_cmp (fst x) (fst y) with Gt => y :: insert_lex x t | _ => x :: l end
+  end.
+
+Definition remove_duplicates (rows : list (list Z)) : list (list Z) :=
+  map snd (fold_right insert_lex [] (firsts [] rows)).
+
 Section Mesh.
 Context {V : Type}.
 
